@@ -16,7 +16,7 @@ from ..jwsgen import JWS_ALGS, alg_name, key_for, make_compact, make_7797_compac
 from .c01 import joserfc_key, entry_points, result_view
 from refjose import jws as rjws, selfcheck
 from refjose.keys import RefKey, RefKeyError
-from refjose.prim import b64u_dec, b64u_dec_lenient
+from refjose.prim import b64u_dec, b64u_dec_lenient, b64u_enc
 
 LEVEL = "exploration"
 RULE = ("A: C03's stratified product (algorithm x key representation x key given as x serialization x b64 x placement x payload), "
@@ -223,6 +223,48 @@ def scale_and_buffers(ctx, rng):
                               "is not valid under the secret that was imported", {"dir": "A-buffer", "size": size})
 
 
+def rare_signatures(ctx, rng):
+    """signatures whose first octet is zero (one in 256): made on purpose by trying payloads; both directions"""
+    j = J.load()
+    for alg in ("HS256", "HS512", "RS256", "PS384", "EdDSA:Ed25519", "EdDSA:Ed448", "ES256K"):
+        key = key_for(alg)
+        rk = RefKey.from_jwk(key)
+        a = alg_name(alg)
+        p64 = b64u_enc(json.dumps({"alg": a}, separators=(",", ":")).encode())
+        hit = None
+        for n in range(6000):
+            payload = b"rare signature %d" % n
+            sig = rjws.sign_raw(a, rk, (p64 + "." + b64u_enc(payload)).encode())
+            if sig[0] == 0 or (a.startswith("ES") and sig[len(sig) // 2] == 0):
+                hit = (payload, sig)
+                break
+            if n % 200 == 0 and ctx.out_of_time():
+                break
+        if hit is None:
+            ctx.count("rare_signature_not_found")
+            continue
+        payload, sig = hit
+        tok = f"{p64}.{b64u_enc(payload)}.{b64u_enc(sig)}"
+        ctx.ev()
+        o = call(j.jws.deserialize_compact, tok, j.key(gen.public_jwk(key)), algorithms=[a])
+        ctx.count("b_checked")
+        ctx.count("rare_signatures")
+        ctx.nontrivial(("rare-sig", alg))
+        ctx.cell("B-rare", a, "signature-leading-zero")
+        if not o.ok or o.value.payload != payload:
+            ctx.violation(f"joserfc-rejects-foreign:rare:signature-leading-zero:{a}", f"{a} signature starting with a zero octet ({sig[:4].hex()}..): joserfc "
+                          f"{'rejects: ' + repr(o.exc) if not o.ok else 'returns another payload'}", {"dir": "B-rare", "alg": alg, "token": tok, "keys": [key]})
+        # the same payload signed by joserfc (deterministic algorithms give the same signature)
+        ctx.ev()
+        o = call(j.jws.serialize_compact, {"alg": a}, payload, j.key(key), algorithms=[a])
+        ctx.count("a_checked")
+        if o.ok:
+            r = rjws.verify_compact(o.value, RefKey.from_jwk(gen.public_jwk(key)))
+            if r.verdict != "ACCEPT":
+                ctx.violation(f"ref-rejects:{r.klass}:{a}:rare", f"payload whose {a} signature starts with a zero octet, signed by joserfc: reference says {r.reason}",
+                              {"dir": "A-rare", "alg": alg, "token": o.value})
+
+
 def run_shard(ctx):
     sc = selfcheck.run()
     if sc["failed"]:
@@ -235,6 +277,8 @@ def run_shard(ctx):
         direction_c(ctx)
     if ctx.shard == 5:
         scale_and_buffers(ctx, rng)
+    if ctx.shard == 6:
+        rare_signatures(ctx, rng)
     # B: forced grid alg x form x style (round-robin over shards), payload rotating
     forms = ["compact", "flat", "general2", "c7797", "j7797"]
     k = 0
